@@ -59,12 +59,33 @@ func (b Backoff) config() configretry.BackOffConfig {
 }
 
 // interval is the reference (un-randomised) back-off interval before retry n+1
-// (n = index of the failed attempt): min(initial*multiplier^n, max_interval).
+// (n = index of the failed attempt).
+//
+//   - multiplier >= 1: the documented envelope min(initial*multiplier^n, max_interval).
+//   - multiplier == 0 (legal: configretry's TestZeroMultiplierIsValid): the documented product would be 0 from
+//     the second retry on; what the pinned code does (retry_sender.go builds a backoff/v5 ExponentialBackOff
+//     without Reset; NextBackOff re-seeds a zero interval from InitialInterval) is a CONSTANT back-off of
+//     initial_interval.  That constant is the configured envelope.
+//   - 0 < multiplier < 1: initial*multiplier^n (shrinking; max_interval can never be reached); when the product
+//     truncates to 0 ns the library re-seeds it from initial_interval, which the reference follows.
 func (b Backoff) interval(n int) time.Duration {
-	cur := float64(b.InitialUS) * 1e3
-	mx := float64(b.MaxIntUS) * 1e3
-	cur *= math.Pow(float64(b.MultX100)/100, float64(n))
-	if cur > mx {
+	initial := time.Duration(b.InitialUS) * time.Microsecond
+	mult := float64(b.MultX100) / 100
+	switch {
+	case mult == 0:
+		return initial
+	case mult < 1:
+		cur := initial
+		for i := 0; i < n; i++ {
+			cur = time.Duration(float64(cur) * mult)
+			if cur == 0 {
+				cur = initial
+			}
+		}
+		return cur
+	}
+	cur := float64(initial) * math.Pow(mult, float64(n))
+	if mx := float64(b.MaxIntUS) * 1e3; cur > mx || math.IsInf(cur, 1) || math.IsNaN(cur) {
 		cur = mx
 	}
 	return time.Duration(cur)
@@ -173,7 +194,13 @@ const (
 func genBackoff(t *rapid.T) Backoff {
 	b := Backoff{Enabled: true}
 	b.InitialUS = int64(rapid.IntRange(1000, 5000).Draw(t, "initial_us"))
-	b.MultX100 = rapid.OneOf(rapid.SampledFrom([]int{100, 150, 200, 300}), rapid.IntRange(100, 300)).Draw(t, "mult_x100")
+	// the whole range Validate accepts (>= 0): 0 (constant back-off), (0,1) (shrinking), exactly 1, the usual 1-3, large
+	b.MultX100 = rapid.OneOf(
+		rapid.SampledFrom([]int{100, 150, 200, 300}), rapid.IntRange(100, 300), rapid.IntRange(100, 300),
+		rapid.Just(0), rapid.Just(0),
+		rapid.IntRange(1, 99),
+		rapid.SampledFrom([]int{100, 101, 1000, 100000, 1 << 40}),
+	).Draw(t, "mult_x100")
 	b.RandX100 = rapid.OneOf(rapid.SampledFrom([]int{0, 0, 25, 50}), rapid.IntRange(0, 50)).Draw(t, "rand_x100")
 	b.MaxIntUS = int64(rapid.IntRange(int(b.InitialUS), 20000).Draw(t, "max_interval_us"))
 	if rapid.IntRange(0, 9).Draw(t, "budget?") < 6 {
@@ -315,7 +342,11 @@ func gen(t *rapid.T) Script {
 			DelayUS: rapid.SampledFrom([]int{0, 0, 100, 1000, 3000}).Draw(t, "stop_delay_us")}
 		return s
 	}
-	n := rapid.IntRange(0, 5).Draw(t, "outcomes")
+	maxOut := 5
+	if s.Backoff.MultX100 < 100 {
+		maxOut = 8 // constant / shrinking back-off: cheap, and a wrong envelope only shows after several retries
+	}
+	n := rapid.IntRange(0, maxOut).Draw(t, "outcomes")
 	for i := 0; i < n; i++ {
 		s.Outcomes = append(s.Outcomes, genOutcome(t, s.Signal, &cur, s.TimeoutMS > 0 || s.DeadlineMS > 0, false))
 	}
@@ -884,7 +915,24 @@ func classify(c *vt.C, tr *trace) {
 	if qn == "" {
 		qn = "none"
 	}
-	c.Class("signal:"+s.Signal, fmt.Sprintf("attempts:%d", n), "queue:"+qn)
+	c.Class("signal:"+s.Signal, fmt.Sprintf("attempts:%d", min(n, 7)), "queue:"+qn)
+	if s.Backoff.Enabled && n >= 2 {
+		switch m := s.Backoff.MultX100; {
+		case m == 0:
+			c.Class("multiplier:0(constant)")
+			if n >= 4 {
+				c.Class("multiplier:0(constant)/3+retries")
+			}
+		case m < 100:
+			c.Class("multiplier:(0,1)")
+		case m == 100:
+			c.Class("multiplier:1")
+		case m <= 300:
+			c.Class("multiplier:(1,3]")
+		default:
+			c.Class("multiplier:>3")
+		}
+	}
 	if s.Queue != "" && s.Queue != "async" {
 		if !tr.haveRet {
 			c.Class("queue:" + qn + "/producer-context-ended-first")
